@@ -1,0 +1,11 @@
+//go:build verif
+
+// Contracts for govc (see /verif/DESIGN.md). Comment-only file: no executable code.
+
+package txresult
+
+//@ property C10
+//@ func NewReceipt(database, revision, to) (r)
+//@   trusted
+//@   pure
+//@   ensures r != nil
